@@ -17,9 +17,13 @@ SymOf(codes) == Syms[CHOOSE k \in DOMAIN Syms : Lim(Syms[k].codes) = codes]
 SymByName(n) == Syms[CHOOSE k \in DOMAIN Syms : Syms[k].name = n]
 
 \* classification of a whole quantity string for factory `cls` ("Quantity" = generic)
+\* white space other than the blank (tab, line feed, no-break space ...): the property speaks of "a blank" between
+\* amount and symbol and does not say whether other separators are malformed - not judged
+OtherSpace == {9, 10, 11, 12, 13, 28, 29, 30, 31, 133, 160, 5760, 8232, 8233, 8239, 8287, 12288} \cup 8192..8202
 Classify(s, cls) ==
     LET amt == ParseAmount(AmountPart(s))  sym == SymbolPart(s) IN
-    IF amt.cls = "reject" THEN "reject"
+    IF \E k \in DOMAIN s : s[k] \in OtherSpace THEN "unspec"
+    ELSE IF amt.cls = "reject" THEN "reject"
     ELSE IF ~HasSymbol(s) THEN (IF amt.cls = "accept" /\ cls = "Quantity" THEN "reject" ELSE "unspec")
     ELSE IF ~Known(sym) THEN "reject"
     ELSE IF cls # "Quantity" /\ SymOf(sym).type # cls THEN "reject"
